@@ -386,6 +386,7 @@ func (w *World) applyProposal(tx *ctypes.Trx, hash []byte) {
 		Voters: nil, Options: pl.Options, Votes: make([]int64, len(pl.Options)), OptType: pl.OptType, Major: -1, SubmitHeight: h}
 	pr.proposer = append([]byte(nil), tx.From...)
 	w.Open[hx(hash)] = pr
+	w.everProposals[hx(hash)] = true
 	w.newProposals = append(w.newProposals, pr)
 	w.Feat["ok_proposal"]++
 }
